@@ -1,12 +1,16 @@
 (* C05 -- children(), parent() and parents() describe the real process tree.
-   Statements only; proofs live in C05/Lib.v, C05/Proofs.v, C05/ProofsSpec.v, C05/ProofsParent.v.
+   Statements only; proofs live in C05/Lib.v, C05/Proofs.v, C05/ProofsSpec.v, C05/ProofsParent.v,
+   C05/ProofsVanish.v.
    Model: C05/Model.v (transcription of psutil/__init__.py children/parent/parents/
    ppid and _pslinux.ppid_map; [as_is] = the code as it is now, [before_fixes] = the
    code before the three repairs 6afb079 / 3959fba / e202d3b), specification: C05/Spec.v.
    t = the listed process table (pid, ppid, start ticks), any size, any parent links;
-   gone = PIDs vanishing after the ppid_map() snapshot; o = the caller object;
+   gone = PIDs vanishing before the call has read their create_time() (children(): before
+   ppid_map reads them / before Process(pid) / before child.create_time(); parent(): before
+   Process(ppid) / before parent.create_time()); goneb = ancestors vanishing after parents()
+   appended them; o = the caller object;
    fuel = number of loop iterations allowed (None = exhausted = no termination). *)
-From PV Require Import C05.Spec C05.Lib C05.Proofs C05.ProofsSpec C05.ProofsParent.
+From PV Require Import C05.Spec C05.Lib C05.Proofs C05.ProofsSpec C05.ProofsParent C05.ProofsVanish.
 
 (* children(): exactly the listed processes naming the caller as parent, never the
    caller itself, still there and not started before it, in listing order *)
@@ -65,7 +69,7 @@ Print Assumptions C05_children_rec_old_refuted.
    none for the root (lowest listed PID) -- with a fresh lowest-PID cache *)
 Theorem C05_parent_spec : forall t cache o,
   wf_table t = true -> alive_b t o = true -> cache_fresh_b t cache = true ->
-  parent as_is t cache o = Val (spec_parent t (o_pid o) (o_ident o)).
+  parent as_is t [] cache o = Val (spec_parent t (o_pid o) (o_ident o)).
 Proof. exact parent_spec. Qed.
 Print Assumptions C05_parent_spec.
 
@@ -78,39 +82,39 @@ Print Assumptions C05_root_is_lowest.
    parent is listed and older (hence the hypothesis "cache fresh" above) *)
 Theorem C05_parent_stale_cache_refuted :
   exists t cache o, wf_table t = true /\ alive_b t o = true /\
-    spec_parent t (o_pid o) (o_ident o) = Some (1, 1) /\ parent as_is t cache o = Val None.
+    spec_parent t (o_pid o) (o_ident o) = Some (1, 1) /\ parent as_is t [] cache o = Val None.
 Proof. exact parent_stale_cache_refuted. Qed.
 Print Assumptions C05_parent_stale_cache_refuted.
 
 (* recycled caller: NoSuchProcess from parent() and parents(), whatever table and cache hold *)
 Theorem C05_parent_recycled : forall t cache o, recycled_b t o = true ->
-  parent as_is t cache o = Exc NoSuchProcess.
+  parent as_is t [] cache o = Exc NoSuchProcess.
 Proof. exact parent_recycled. Qed.
 Print Assumptions C05_parent_recycled.
 
 Theorem C05_parents_recycled : forall t cache o fuel, recycled_b t o = true ->
-  parents as_is fuel t cache o = Exc NoSuchProcess.
+  parents as_is fuel t [] [] cache o = Exc NoSuchProcess.
 Proof. exact parents_recycled. Qed.
 Print Assumptions C05_parents_recycled.
 
 (* fixed (3959fba): before the repair the recycled lowest PID got None / [] *)
 Theorem C05_parent_recycled_old_refuted :
   exists t o, wf_table t = true /\ recycled_b t o = true /\
-    parent before_fixes t None o = Val None /\ parents before_fixes 3 t None o = Val (Some []).
+    parent before_fixes t [] None o = Val None /\ parents before_fixes 3 t [] [] None o = Val (Some []).
 Proof. exact parent_recycled_old_refuted. Qed.
 Print Assumptions C05_parent_recycled_old_refuted.
 
 (* parents() terminates within |t|+1 loop tests on ANY table (cyclic links included),
-   any cache, any caller *)
-Theorem C05_parents_terminates : forall fx t cache o, fx_parents_seen fx = true ->
-  parents fx (S (length t)) t cache o <> Val None.
+   any cache, any caller, whatever vanishes meanwhile *)
+Theorem C05_parents_terminates : forall fx t gone goneb cache o, fx_parents_seen fx = true ->
+  parents fx (S (length t)) t gone goneb cache o <> Val None.
 Proof. exact parents_terminates. Qed.
 Print Assumptions C05_parents_terminates.
 
 (* ... always returns a list for a live caller ... *)
 Theorem C05_parents_total : forall t cache o,
   wf_table t = true -> alive_b t o = true -> cache_fresh_b t cache = true ->
-  exists l, parents as_is (S (length t)) t cache o = Val (Some l).
+  exists l, parents as_is (S (length t)) t [] [] cache o = Val (Some l).
 Proof. exact parents_total. Qed.
 Print Assumptions C05_parents_total.
 
@@ -118,7 +122,7 @@ Print Assumptions C05_parents_total.
    met (the caller or an earlier member) when PID reuse made the links cyclic ... *)
 Theorem C05_parents_cut : forall t cache o,
   wf_table t = true -> alive_b t o = true -> cache_fresh_b t cache = true ->
-  exists l, parents as_is (S (length t)) t cache o = Val (Some l) /\ chain_cut t [o_pid o] (o_pid o) l.
+  exists l, parents as_is (S (length t)) t [] [] cache o = Val (Some l) /\ chain_cut t [o_pid o] (o_pid o) l.
 Proof. exact parents_cut. Qed.
 Print Assumptions C05_parents_cut.
 
@@ -126,7 +130,7 @@ Print Assumptions C05_parents_cut.
 Theorem C05_parents_chain_complete : forall t cache o l fuel,
   wf_table t = true -> alive_b t o = true -> cache_fresh_b t cache = true ->
   chain t (o_pid o) l -> (length l <= fuel)%nat ->
-  parents as_is fuel t cache o = Val (Some l).
+  parents as_is fuel t [] [] cache o = Val (Some l).
 Proof. exact parents_chain_complete. Qed.
 Print Assumptions C05_parents_chain_complete.
 
@@ -135,7 +139,7 @@ Print Assumptions C05_parents_chain_complete.
 Theorem C05_parents_acyclic_chain : forall t cache o,
   wf_table t = true -> alive_b t o = true -> cache_fresh_b t cache = true ->
   (forall p k, up t (S k) p <> Some p) ->
-  exists l, parents as_is (S (length t)) t cache o = Val (Some l) /\ chain t (o_pid o) l.
+  exists l, parents as_is (S (length t)) t [] [] cache o = Val (Some l) /\ chain t (o_pid o) l.
 Proof. exact parents_acyclic_chain. Qed.
 Print Assumptions C05_parents_acyclic_chain.
 
@@ -148,6 +152,33 @@ Print Assumptions C05_strictly_older_acyclic.
 (* fixed (e202d3b): before the repair parents() exhausted every fuel on a ppid self-loop *)
 Theorem C05_parents_old_nonterminating_refuted :
   exists t o, wf_table t = true /\ alive_b t o = true /\
-              forall fuel, parents before_fixes fuel t None o = Val None.
+              forall fuel, parents before_fixes fuel t [] [] None o = Val None.
 Proof. exact parents_old_nonterminating_refuted. Qed.
 Print Assumptions C05_parents_old_nonterminating_refuted.
+
+(* processes vanishing while parent() looks at them: a parent that vanishes before its
+   create_time() was read is no parent *)
+Theorem C05_parent_spec_vanish : forall fx t gone cache o,
+  wf_table t = true -> alive_b t o = true -> cache_fresh_b t cache = true ->
+  parent fx t gone cache o = Val (spec_parent_v t gone (o_pid o) (o_ident o)).
+Proof. exact parent_spec_v. Qed.
+Print Assumptions C05_parent_spec_vanish.
+
+(* known finding: an ancestor that vanishes after parents() appended it makes parents() of
+   a LIVE caller raise NoSuchProcess (for the ancestor's PID); with the proposed repair
+   (notes/fixes/C05-parents-vanished-ancestor.diff) the chain ends there *)
+Theorem C05_parents_vanish_refuted :
+  exists t goneb o, wf_table t = true /\ alive_b t o = true /\
+    parents as_is (S (length t)) t [] goneb None o = Exc NoSuchProcess /\
+    parents with_nsp_fix (S (length t)) t [] goneb None o = Val (Some [5]).
+Proof. exact parents_vanish_refuted. Qed.
+Print Assumptions C05_parents_vanish_refuted.
+
+(* with that repair: whatever vanishes, before or after being appended, a live caller
+   always gets a list from parents() -- never an exception, never a hang *)
+Theorem C05_parents_vanish_total_patched : forall fx t gone goneb cache o,
+  fx_parents_seen fx = true -> fx_parents_nsp fx = true ->
+  wf_table t = true -> alive_b t o = true -> cache_fresh_b t cache = true ->
+  exists l, parents fx (S (length t)) t gone goneb cache o = Val (Some l).
+Proof. exact parents_vanish_total. Qed.
+Print Assumptions C05_parents_vanish_total_patched.
